@@ -392,6 +392,14 @@ class Ctx:
         results = []
         with ThreadPoolExecutor(max_workers=jobs) as ex:
             outs = list(ex.map(runone, files))
+        # a chunk that hit the wall-clock limit (loaded machine) is retried once, alone, with three times the limit:
+        # a timeout must not turn into an alarm on code where the property holds
+        for i, (rc, out) in enumerate(outs):
+            if rc == 124:
+                self.log('coq_eval: chunk %d timed out after %ss; retrying alone with %ss' % (i, timeout, 3 * timeout))
+                rc2, out2 = sh(['bash', '-c', 'ulimit -s unlimited 2>/dev/null; exec coqc %s %s' % (
+                    ' '.join(COQFLAGS), 'cases/' + os.path.basename(files[i]))], cwd=COQ, timeout=3 * timeout)
+                outs[i] = (rc2, out2)
         for (rc, out), ch, fn in zip(outs, chunks, files):
             vals = split_eval_output(out)
             if rc != 0 or len(vals) != len(ch):
